@@ -95,14 +95,8 @@ def gen():
     fn = T.find_def(tree, CLS + "._build_mesh_with_cuts", REL)
     parts.append(("_build_mesh_with_cuts", T.sha(src, fn)))
     body = T.body_nodoc(fn)
-    kf0 = None
     loop1 = loop2 = None
     for s in body:
-        if isinstance(s, ast.Assign) and len(s.targets) == 1 and isinstance(s.targets[0], ast.Name) \
-                and s.targets[0].id == "kF":
-            if not (isinstance(s.value, ast.Constant) and isinstance(s.value.value, int)):
-                T.fail(REL, s, "kF is not initialised with an integer literal")
-            kf0 = s.value.value
         if isinstance(s, ast.For) and isinstance(s.iter, ast.Call) and T.dotted(s.iter.func) == "enumerate" \
                 and len(s.iter.args) == 1 and _is_attr(s.iter.args[0], "self.input_mesh.faces"):
             if loop1 is not None:
@@ -112,8 +106,24 @@ def gen():
             if loop2 is not None:
                 T.fail(REL, s, "two loops over the interior edges")
             loop2 = s
-    if kf0 is None or loop1 is None or loop2 is None:
-        T.fail(REL, fn, "rebuild: `kF = <int>`, the loop over input faces or the loop over interior edges is missing")
+    if loop1 is None or loop2 is None:
+        T.fail(REL, fn, "rebuild: the loop over input faces or the loop over interior edges is missing")
+    accs = [s.target.id for s in loop1.body if isinstance(s, ast.AugAssign) and isinstance(s.target, ast.Name)]
+    if len(accs) != 1:
+        T.fail(REL, loop1, "rebuild: the face loop does not advance exactly one counter")
+    ACC = accs[0]
+    kf0 = None
+    for s in body:
+        if s is loop1:
+            break
+        if isinstance(s, ast.Assign) and len(s.targets) == 1 and isinstance(s.targets[0], ast.Name) \
+                and s.targets[0].id == ACC:
+            if not (isinstance(s.value, ast.Constant) and isinstance(s.value.value, int)
+                    and not isinstance(s.value.value, bool)):
+                T.fail(REL, s, "the corner counter is not initialised with an integer literal")
+            kf0 = s.value.value
+    if kf0 is None:
+        T.fail(REL, fn, "rebuild: the corner counter is not initialised before the face loop")
     # loop 1
     tgt = loop1.target
     if not (isinstance(tgt, ast.Tuple) and len(tgt.elts) == 2 and all(isinstance(e, ast.Name) for e in tgt.elts)):
@@ -135,15 +145,15 @@ def gen():
             if not (isinstance(g.iter, ast.Call) and T.dotted(g.iter.func) == "range" and len(g.iter.args) == 1
                     and isinstance(g.iter.args[0], ast.Name) and g.iter.args[0].id == nF):
                 T.fail(REL, s, "output face comprehension does not range over range(nF)")
-            corner = zexpr(a.elt, {"kF": "kF", g.target.id: "i"})
+            corner = zexpr(a.elt, {ACC: "kF", g.target.id: "i"})
         elif isinstance(s, ast.For):
             if inner is not None:
                 T.fail(REL, s, "two inner loops in the face loop")
             inner = s
-        elif isinstance(s, ast.AugAssign) and isinstance(s.target, ast.Name) and s.target.id == "kF":
+        elif isinstance(s, ast.AugAssign) and isinstance(s.target, ast.Name) and s.target.id == ACC:
             if not isinstance(s.op, ast.Add):
-                T.fail(REL, s, "kF is not advanced with +=")
-            stride = "(kF + %s)" % zexpr(s.value, {"kF": "kF", nF or "nF": "nF"})
+                T.fail(REL, s, "the corner counter is not advanced with +=")
+            stride = "(kF + %s)" % zexpr(s.value, {ACC: "kF", nF or "nF": "nF"})
         else:
             T.fail(REL, s, "unexpected statement in the face loop of the rebuild")
     if None in (nF, corner, stride, inner):
@@ -171,9 +181,9 @@ def gen():
                 and s.value.func.attr == "add":
             tgt2 = s.value.func.value
             if not (isinstance(tgt2, ast.Subscript) and isinstance(tgt2.value, ast.Name)
-                    and tgt2.value.id == "duplicate_vertices" and isinstance(tgt2.slice, ast.Name) and tgt2.slice.id == vn):
-                T.fail(REL, s, "not duplicate_vertices[v].add(..)")
-            dup = zexpr(s.value.args[0], {"kF": "kF", ivn: "iv"})
+                    and isinstance(tgt2.slice, ast.Name) and tgt2.slice.id == vn):
+                T.fail(REL, s, "not <duplicates>[v].add(..)")
+            dup = zexpr(s.value.args[0], {ACC: "kF", ivn: "iv"})
         else:
             T.fail(REL, s, "unexpected statement in the corner loop of the rebuild")
     if dup is None or not appended:
@@ -303,20 +313,20 @@ Definition union_pairs (lookup : Z -> Z -> Z) (d1 d2 : Z * Z * Z) : list (Z * Z)
     lb = fl.body
     if len(lb) != 3:
         T.fail(REL, fl, "inner loop is not remove / remove / if")
-    s = lb[0]
-    ok = (_call_name(s) is None and isinstance(s, ast.Expr) and isinstance(s.value, ast.Call)
-          and isinstance(s.value.func, ast.Attribute) and s.value.func.attr in ("remove", "discard")
-          and isinstance(s.value.func.value, ast.Subscript) and _is_attr(s.value.func.value.value, "self.cut_adj")
-          and isinstance(s.value.func.value.slice, ast.Name) and s.value.func.value.slice.id == Bn
-          and isinstance(s.value.args[0], ast.Name) and s.value.args[0].id == An)
-    if not ok:
-        T.fail(REL, s, "first statement is not self.cut_adj[B].remove(A)")
-    s = lb[1]
-    ok = (_call_name(s) in ("self.cut_edges.remove", "self.cut_edges.discard") and isinstance(s.value.args[0], ast.Call)
-          and T.dotted(s.value.args[0].func) == "self.input_mesh.connectivity.edge_id"
-          and sorted(a.id for a in s.value.args[0].args if isinstance(a, ast.Name)) == sorted([An, Bn]))
-    if not ok:
-        T.fail(REL, s, "second statement is not self.cut_edges.remove(edge_id(A,B))")
+    def is_adj_remove(s):
+        return (isinstance(s, ast.Expr) and isinstance(s.value, ast.Call)
+                and isinstance(s.value.func, ast.Attribute) and s.value.func.attr in ("remove", "discard")
+                and isinstance(s.value.func.value, ast.Subscript) and _is_attr(s.value.func.value.value, "self.cut_adj")
+                and isinstance(s.value.func.value.slice, ast.Name) and s.value.func.value.slice.id == Bn
+                and len(s.value.args) == 1 and isinstance(s.value.args[0], ast.Name) and s.value.args[0].id == An)
+
+    def is_edge_remove(s):
+        return (_call_name(s) in ("self.cut_edges.remove", "self.cut_edges.discard") and len(s.value.args) == 1
+                and isinstance(s.value.args[0], ast.Call)
+                and T.dotted(s.value.args[0].func) == "self.input_mesh.connectivity.edge_id"
+                and sorted(a.id for a in s.value.args[0].args if isinstance(a, ast.Name)) == sorted([An, Bn]))
+    if not ((is_adj_remove(lb[0]) and is_edge_remove(lb[1])) or (is_adj_remove(lb[1]) and is_edge_remove(lb[0]))):
+        T.fail(REL, fl, "inner loop does not start with self.cut_adj[B].remove(A) and self.cut_edges.remove(edge_id(A,B))")
     s = lb[2]
     if not (isinstance(s, ast.If) and not s.orelse and len(s.body) == 1 and is_append(s.body[0], Bn)):
         T.fail(REL, s, "third statement is not `if <test>: queue.append(B)`")
